@@ -91,6 +91,16 @@ func (p *pipeline) executeStage(parentStageID string, stage stagepkg.Stage) {
 
 	stageID := uuid.New().String()
 	p.sm.executeStage(parentStageID, stageID, stage)
+	defer func() {
+		if r := recover(); r != nil {
+			// stage(planning or inline executing) panics after it is tracked as pending. If it runs in
+			// a worker of parent stage, pool's recover only completes parent stage, pending never
+			// reaches zero. So complete pipeline with error here(same as Execute does for caller's
+			// goroutine), then keep panic routing as before.
+			p.sm.complete(errorpkg.Error(r))
+			panic(r)
+		}
+	}()
 
 	stage.Execute(stage.Plan(), func() {
 		// after current stage execute completed, then plan next stages
